@@ -48,8 +48,9 @@ EXPRS = [
     ("s*lit", None, lambda T: T, False),  # scalar variable x literal array
     ("v*lit", None, None, False),  # array variable x literal array (elementwise)
     ("v+lit", None, None, False),  # array variable + literal array
+    ("slice", None, None, False),  # a slice var[1:n+1] of a longer array variable
 ]
-ARRAY_ONLY = ("s*lit", "v*lit", "v+lit")
+ARRAY_ONLY = ("s*lit", "v*lit", "v+lit", "slice")
 LIT = [2.0, 0.5, 4.0, 0.25, 8.0]
 
 
@@ -136,6 +137,15 @@ class Vals:
                     self.vars[name] = self.seq.declare_variable(name, dtype=float)
                 return self.vars[name] * np.array(base_list, dtype=float)
             return np.float64(T) * np.array(base_list, dtype=float)
+        if kind == "slice":
+            n = len(base_list)
+            name = f"v{pos}"
+            self.arrays[name] = (base_list, (lambda t: t), None, ("slice", None))
+            if self.mode == "template":
+                if name not in self.vars:
+                    self.vars[name] = self.seq.declare_variable(name, size=n + 2, dtype=float)
+                return self.vars[name][1:n + 1]
+            return np.array(target, dtype=float)
         if kind in ("v*lit", "v+lit"):
             n = len(base_list)
             lit = np.array(LIT[:n], dtype=float)
@@ -173,7 +183,10 @@ class Vals:
                 vals = [inv(T * b) for b in base_list]
                 if len(self.arrays[name]) > 3:  # the variable is combined with a literal array
                     k, lit = self.arrays[name][3]
-                    vals = [float(v / l) if k == "v*lit" else float(v - l) for v, l in zip(vals, lit)]
+                    if k == "slice":
+                        vals = [7.0] + [float(v) for v in vals] + [-7.0]
+                    else:
+                        vals = [float(v / l) if k == "v*lit" else float(v - l) for v, l in zip(vals, lit)]
                 elif len(self.arrays[name]) > 2:  # read through var[order]: w[order[i]] = target[i]
                     order = self.arrays[name][2]
                     w = [0.0] * len(vals)
@@ -253,6 +266,16 @@ def sk_interp1d(seq, V, w):
     seq.add(Pulse.ConstantDetuning(wf, V(2, -1.0), 0.0), "g")
 
 
+def sk_prefix(seq, V, w):
+    """A phase shift on the LAST declared id before any variable is used: on a mappable register it is applied to the template right away
+    and stays in the record of every built sequence, also of those built without that id."""
+    from pulser import Pulse
+
+    seq.declare_channel("l", "raman_local", initial_target="q0")
+    seq.phase_shift(0.5, w.qids[-1], basis="digital")
+    seq.add(Pulse.ConstantPulse(V(0, 100, True), V(1, 1.0), 0.0, V(2, 0.0)), "l")
+
+
 def sk_eom(seq, V, w):
     seq.declare_channel("g", "rydberg_global")
     seq.enable_eom_mode("g", V(0, 2.0), V(1, 0.5), optimal_detuning_off=V(2, -10.0), correct_phase_drift=True)
@@ -328,7 +351,7 @@ def sk_literals(seq, V, w):
     seq.add(Pulse.ConstantPulse(16, 1.0, 0.0, 0.0, post_phase_shift=0.0), "g", protocol="no-delay")
 
 
-SKELETONS = {"literals": sk_literals, "maxval": sk_maxval, "basic": sk_basic, "waveforms": sk_waveforms, "interp": sk_interp, "interp1d": sk_interp1d, "eom": sk_eom, "eom2": sk_eom2, "dmm": sk_dmm,
+SKELETONS = {"literals": sk_literals, "maxval": sk_maxval, "basic": sk_basic, "waveforms": sk_waveforms, "interp": sk_interp, "interp1d": sk_interp1d, "prefix": sk_prefix, "eom": sk_eom, "eom2": sk_eom2, "dmm": sk_dmm,
              "index": sk_index, "xy": sk_xy}
 WORLD = corner("real", name="c08", qubits=3, clock=4, min_dur=16, eom=dict(controlled_beams=["BLUE", "RED"]))
 
